@@ -164,8 +164,25 @@ def rule_e(repo, chk):
     chk.ob('C18.e', ok, sn, 'SelfName.parent_context asks for the context of its own tree name')
 
 
+def rule_f(repo, chk):
+    chk.clause('C18.f', 'qualified names follow the lexical nesting of CLASSES: create_value gives a nested class the context it lexically sits '
+                        'in (only functions skip enclosing class bodies, in FunctionValue.from_context - C03.e); no climbing of '
+                        'parent_context in front of the ClassValue constructor, else Outer drops out of Outer.Inner.method')
+    f = repo.find('jedi.inference.context', 'TreeContextMixin.create_value')
+    ctors = [c for c in calls_in(f, 'ClassValue')]
+    chk.floor('C18.f', len(ctors), 1, '(ClassValue constructor in create_value)')
+    pc = [a for a in stmts_in(f, ast.Assign) if norm(a.targets[0]) == 'parent_context']
+    ok = len(pc) == 1 and norm(pc[0].value) == 'self.create_context(node)'
+    chk.ob('C18.f', ok, f, 'the parent context of a new value is bound once: create_context(node), the lexical context', str([norm(a.value) for a in pc]))
+    for c in ctors:
+        ok = len(c.args) >= 2 and norm(c.args[1]) == 'parent_context'
+        chk.ob('C18.f', ok, c, 'the class value is built with that lexical parent context', norm(c))
+    loops = [x for x in own_nodes(f) if isinstance(x, (ast.While, ast.For))]
+    chk.ob('C18.f', not loops, f, 'create_value itself climbs nothing (the class-skipping climb lives in FunctionValue.from_context only)')
+
+
 def describe(chk):
     chk.undecided('the position -> scope mapping over all files (e.g. async def bodies); __qualname__ equality for everything the engine reports')
 
 
-RULES = [('C18.a', rule_a), ('C18.b', rule_b), ('C18.c', rule_c), ('C18.d', rule_d), ('C18.e', rule_e)]
+RULES = [('C18.a', rule_a), ('C18.b', rule_b), ('C18.c', rule_c), ('C18.d', rule_d), ('C18.e', rule_e), ('C18.f', rule_f)]
